@@ -1,0 +1,44 @@
+// Copyright © 2024 Attestant Limited.
+// Licensed under the Apache License, Version 2.0 (the "License");
+// you may not use this file except in compliance with the License.
+// You may obtain a copy of the License at
+//
+//     http://www.apache.org/licenses/LICENSE-2.0
+//
+// Unless required by applicable law or agreed to in writing, software
+// distributed under the License is distributed on an "AS IS" BASIS,
+// WITHOUT WARRANTIES OR CONDITIONS OF ANY KIND, either express or implied.
+// See the License for the specific language governing permissions and
+// limitations under the License.
+
+//go:build verif
+
+// Package verifhook provides instrumentation points for verification harnesses.
+// With the "verif" build tag a harness can register a handler that is called at every point.
+package verifhook
+
+import (
+	"context"
+	"sync/atomic"
+)
+
+// Handler is called at every instrumentation point.
+// A non-nil return value is returned to the instrumented code as an injected error.
+type Handler func(ctx context.Context, site string, args ...any) error
+
+var handler atomic.Value
+
+// SetHandler registers the handler (nil removes it).
+func SetHandler(h Handler) {
+	handler.Store(&h)
+}
+
+// Point marks an instrumentation point.
+func Point(ctx context.Context, site string, args ...any) error {
+	hp, _ := handler.Load().(*Handler)
+	if hp == nil || *hp == nil {
+		return nil
+	}
+
+	return (*hp)(ctx, site, args...)
+}
